@@ -165,9 +165,86 @@ where
     out.join(";")
 }
 
+// ---- ExtOps: the operator trait impls of the PLAIN types `F = FixedI*/FixedU*<Frac>` (`arith.rs`: `refs!`, `refs_assign!`, `pass!`,
+// `shift!`, `shift_assign!`, `fixed_arith!`, `Sum` / `Product`).  request: `fprog s n f <x0> <step> ...`, same step syntax and answer as
+// `wprog`; extra variants `mul_int.lvv|lvr|lrv|lrr` = `k * a`, `k * &a`, `&k * a`, `&k * &a` (integer on the LEFT).
+trait FOps: Fixed { fn fstep(x: Self, st: &str) -> Self; }
+macro_rules! fneg {
+    (Signed, $x:expr, $var:expr) => { if $var == "r" { -&$x } else { -$x } };
+    (Unsigned, $x:expr, $var:expr) => {{ let _ = ($x, $var); bad() }};
+}
+macro_rules! fops {
+    ($($F:ident, $L:ident, $Inner:ty, $Sg:tt);*) => { $(
+        impl<Frac: substrate_fixed::types::extra::$L> FOps for substrate_fixed::$F<Frac> {
+            fn fstep(x: Self, st: &str) -> Self {
+                let (head, argstr) = match st.split_once(':') { Some((h, a)) => (h, a), None => (st, "") };
+                let (op, var) = match head.split_once('.') { Some((o, v)) => (o, v), None => (head, "vv") };
+                let fy = || Self::from_bits(<$Inner as Prim>::parse(argstr));
+                let ky = || <$Inner as Prim>::parse(argstr);
+                let list = |first: Option<Self>| -> Vec<Self> {
+                    let mut v: Vec<Self> = first.into_iter().collect();
+                    for p in argstr.split(',') { if !p.is_empty() { v.push(Self::from_bits(<$Inner as Prim>::parse(p))); } }
+                    v
+                };
+                match op {
+                    "add" => binop!(x, fy(), var, +, +=),
+                    "sub" => binop!(x, fy(), var, -, -=),
+                    "mul" => binop!(x, fy(), var, *, *=),
+                    "div" => binop!(x, fy(), var, /, /=),
+                    "rem" => binop!(x, fy(), var, %, %=),
+                    "bitand" => binop!(x, fy(), var, &, &=),
+                    "bitor" => binop!(x, fy(), var, |, |=),
+                    "bitxor" => binop!(x, fy(), var, ^, ^=),
+                    "mul_int" => { let k = ky(); match var {
+                        "lvv" => k * x, "lvr" => k * &x, "lrv" => &k * x, "lrr" => &k * &x,
+                        _ => binop!(x, k, var, *, *=),
+                    } }
+                    "div_int" => binop!(x, ky(), var, /, /=),
+                    "rem_int" => binop!(x, ky(), var, %, %=),
+                    "neg" => fneg!($Sg, x, var),
+                    "not" => if var == "r" { !&x } else { !x },
+                    "shl" | "shr" => {
+                        let (ty, amt) = argstr.split_once(',').unwrap_or_else(|| bad());
+                        let amt: u128 = pat(amt);
+                        if op == "shl" { shiftop!(x, amt, ty, var, <<, <<=) } else { shiftop!(x, amt, ty, var, >>, >>=) }
+                    }
+                    "sum" => { let v = list(Some(x)); if var == "r" { v.iter().sum::<Self>() } else { v.into_iter().sum::<Self>() } }
+                    "product" => { let v = list(Some(x)); if var == "r" { v.iter().product::<Self>() } else { v.into_iter().product::<Self>() } }
+                    "sum0" => { let v: Vec<Self> = Vec::new(); if var == "r" { v.iter().sum::<Self>() } else { v.into_iter().sum::<Self>() } }
+                    "product0" => { let v: Vec<Self> = Vec::new(); if var == "r" { v.iter().product::<Self>() } else { v.into_iter().product::<Self>() } }
+                    _ => bad(),
+                }
+            }
+        }
+    )* };
+}
+fops! { FixedI8, LeEqU8, i8, Signed; FixedI16, LeEqU16, i16, Signed; FixedI32, LeEqU32, i32, Signed; FixedI64, LeEqU64, i64, Signed;
+        FixedI128, LeEqU128, i128, Signed; FixedU8, LeEqU8, u8, Unsigned; FixedU16, LeEqU16, u16, Unsigned; FixedU32, LeEqU32, u32, Unsigned;
+        FixedU64, LeEqU64, u64, Unsigned; FixedU128, LeEqU128, u128, Unsigned }
+
+fn run_f<F: Fixed + FOps>(a: &[&str]) -> String
+where
+    F::Bits: Prim,
+{
+    let mut x = F::from_bits(<F::Bits as Prim>::parse(arg(a, 0)));
+    let mut out: Vec<String> = Vec::new();
+    for st in &a[1..] {
+        match catch_unwind(AssertUnwindSafe(|| F::fstep(x, st))) {
+            Ok(v) => { x = v; out.push(format!("{}", x.to_bits())); }
+            Err(e) => {
+                if e.is::<BadReq>() { std::panic::resume_unwind(e) }
+                out.push("P".into());
+                break;
+            }
+        }
+    }
+    out.join(";")
+}
+
 fn main() {
     serve(|op, s, n, f, a| match op {
         "wprog" => sfx_dispatch!(s, n, f, run(a)),
+        "fprog" => sfx_dispatch!(s, n, f, run_f(a)),
         _ => "UNKNOWN".to_string(),
     });
 }
